@@ -59,7 +59,7 @@ Definition spec_step (ns : N) (a : abs) (o : op) : abs * ret :=
         let l := get a s in
         if i =? 0 then (a, RPre)
         else if i <=? len l then (set a s (update_nth (N.to_nat (i - 1)) v l), RNone)
-        else (set a s (set_len (N.to_nat (i - 1)) defv l ++ [v]), RNone)
+        else (set a s (update_nth (N.to_nat (i - 1)) v (set_len (N.to_nat i) defv l)), RNone)
     | OInsertAt s i v =>
         let l := get a s in
         if (i =? 0) || (len l + 1 <? i) then (a, RNone)
